@@ -149,6 +149,17 @@ def check_string(cx, http, DS, s):
         back = http.parse_set_header(d)
         cx.eq("headerset", s, d, list(back), list(hs), "C06/headerset-built-by-mutators")
         cx.eq("headerset", s, d, back.to_header(), d, "C06/headerset-not-a-normal-form")
+        # ... and through item assignment: an entry re-spelled in another letter case (the same member), one replaced by a new
+        # member; what the set answers (len, in, add of a present member) agrees with what its header parses to
+        hs = DS.HeaderSet(["accept-encoding", "cookie", "x" + (s.lower() if s.lower() != s.upper() else "q")])
+        hs[1] = "Cookie"
+        hs[0] = "Accept-Encoding"
+        hs[2] = hs[2].upper()
+        hs.add("cookie")
+        hs.add("COOKIE")
+        d = hs.to_header()
+        back = http.parse_set_header(d)
+        cx.eq("headerset", s, d, (list(back), len(back), "cookie" in back, sorted(back.as_set())), (list(hs), len(hs), "cookie" in hs, sorted(hs.as_set())), "C06/headerset-after-item-assignment")
         if '"' not in s and s:
             e = DS.ETags([s], ["w" + s])
             d = e.to_header()
